@@ -218,18 +218,88 @@ def _pollard_product():
   return m
 
 
-def run_smooth(ctx, spec):
+def _bound_product(bound):
+  """Definitional bound-powersmooth product (integer arithmetic only)."""
+  m = 1
+  for p in rsagen.small_primes():
+    if p >= bound:
+      break
+    e = 1
+    while p ** (e + 1) <= bound:
+      e += 1
+    m *= p ** e
+  return m
+
+
+def _pollard_instances(ctx, hist):
+  """The default check reached through different instance histories: other
+  instances (user bounds, earlier defaults, the registry's) are constructed
+  before it.  Every default instance must carry the same product."""
+  from paranoid_crypto.lib import paranoid
   from paranoid_crypto.lib import rsa_single_checks as rs
+  extra = {}
+  if hist == 0:
+    chk = rs.CheckPollardpm1()
+  elif hist == 1:
+    extra[2 ** 20] = rs.CheckPollardpm1(bound=2 ** 20)
+    chk = rs.CheckPollardpm1()
+  elif hist == 2:
+    first = rs.CheckPollardpm1()
+    extra[2 ** 20] = rs.CheckPollardpm1(bound=2 ** 20)
+    extra[2 ** 16] = rs.CheckPollardpm1(bound=2 ** 16)
+    chk = rs.CheckPollardpm1()
+    extra['first-default'] = first
+  else:
+    extra[2 ** 16] = rs.CheckPollardpm1(bound=2 ** 16)
+    extra[2 ** 20] = rs.CheckPollardpm1(bound=2 ** 20)
+    chk = dict(paranoid.GetRSAAllChecks())['CheckPollardpm1']
+    extra[2 ** 20] = rs.CheckPollardpm1(bound=2 ** 20)   # a second one
+  ctx.count('instance_history:%d' % hist)
+  # invariant at a hook: the product held by an instance is the documented one
+  M = _pollard_product()
+  for name, inst in [('default', chk)] + sorted(
+      ((str(k), v) for k, v in extra.items())):
+    m = getattr(inst, '_m', None)
+    if m is None:
+      ctx.count('pollard_product_unobservable')
+      continue
+    ctx.count('pollard_product_observed')
+    want = M if name in ('default', 'first-default') else None
+    if want is not None and int(m) != want:
+      ctx.violation('pollard-default-product-differs/history',
+                    'default CheckPollardpm1 built in instance history %d '
+                    'holds a product different from the documented one '
+                    '(v2 = %d instead of 64)' % (
+                        hist, (int(m) & -int(m)).bit_length() - 1),
+                    {'history': hist, 'instance': name})
+    elif want is None:
+      mb = _bound_product(int(name))
+      # float log in the constructor may differ at exact powers; require only
+      # that every prime power strictly below the bound divides the product
+      if int(m) % _bound_product(int(name) // 2 + 1):
+        ctx.violation('pollard-bound-product-incomplete/history',
+                      'CheckPollardpm1(bound=%s) built in instance history %d '
+                      'misses prime powers below bound/2' % (name, hist),
+                      {'history': hist, 'bound': name})
+  return chk, extra
+
+
+def run_smooth(ctx, spec):
   rng = ctx.rng('smooth')
-  chk = rs.CheckPollardpm1()
+  hist = int(spec['shard'].rsplit('-', 1)[1]) % 4
+  chk, extra = _pollard_instances(ctx, hist)
   M = _pollard_product()
   for i in range(spec['n']):
     nbits = rng.choice(spec['sizes'])
     both = i % 3 == 0
+    maxpow = i % 2 == 1
     if not ctx.want('m%d' % i):
       continue
     for _ in range(60):
-      n, p, qq = rsagen.shared_smooth(rng, nbits, both)
+      if maxpow:
+        n, p, qq = rsagen.shared_smooth_maxpow(rng, nbits, both)
+      else:
+        n, p, qq = rsagen.shared_smooth(rng, nbits, both)
       shared = math.gcd(p - 1, qq - 1)
       smooth_shared = math.gcd(shared, M)
       if (M % (p - 1) == 0 and smooth_shared >= 2 ** 60 and
@@ -238,25 +308,61 @@ def run_smooth(ctx, spec):
     else:
       ctx.count('smooth_not_constructible')
       continue
-    flagged, facs = _run(ctx, chk, n)
-    ctx.count('evaluations')
-    ctx.distinct(n)
-    ctx.count('tried:smooth/' + ('both' if both else 'one'))
-    if not flagged:
-      ctx.violation('shared-smooth-not-flagged',
-                    'p-1 | default Pollard product, gcd(p-1,q-1) has a smooth '
-                    'part of %d bits, both_smooth=%s: not flagged' %
-                    (smooth_shared.bit_length(), both),
-                    {'n': n, 'p': p, 'both': both})
-    elif not both and not {p, qq} <= facs:
-      ctx.violation('shared-smooth-not-factored',
-                    'only p-1 is smooth but no factorisation was recorded',
-                    {'n': n, 'p': p})
-    else:
-      ctx.count('hit:smooth/' + ('both' if both else 'one'))
+    insts = [('default', chk)]
+    if 'first-default' in extra:
+      insts.append(('first-default', extra['first-default']))
+    for iname, inst in insts:
+      flagged, facs = _run(ctx, inst, n)
+      ctx.count('evaluations')
+      ctx.distinct(n, iname)
+      fam = 'smooth/' + ('both' if both else 'one') + (
+          '/maxpow' if maxpow else '')
+      ctx.count('tried:' + fam)
+      if not flagged:
+        ctx.violation('shared-smooth-not-flagged' + (
+            '/maxpow' if maxpow else ''),
+                      'p-1 | default Pollard product, gcd(p-1,q-1) has a '
+                      'smooth part of %d bits, both_smooth=%s, instance '
+                      'history %d (%s): not flagged' %
+                      (smooth_shared.bit_length(), both, hist, iname),
+                      {'n': n, 'p': p, 'both': both, 'history': hist})
+      elif not both and not {p, qq} <= facs:
+        ctx.violation('shared-smooth-not-factored',
+                      'only p-1 is smooth but no factorisation was recorded',
+                      {'n': n, 'p': p, 'history': hist})
+      else:
+        ctx.count('hit:' + fam)
+  # user-supplied bounds: a key whose p-1 is a squarefree product of primes
+  # below the bound divides every bound-powersmooth product
+  for bound, inst in sorted((k, v) for k, v in extra.items()
+                            if isinstance(k, int)):
+    for j in range(2):
+      if not ctx.want('b%d-%d' % (bound, j)):
+        continue
+      both = j == 1
+      n, p, qq = rsagen.shared_smooth_squarefree(rng, 1024, both, bound)
+      if math.gcd(qq - 1, _bound_product(bound)) == qq - 1 and not both:
+        continue
+      flagged, facs = _run(ctx, inst, n)
+      ctx.count('evaluations')
+      ctx.distinct(n, bound)
+      ctx.count('tried:smooth/user-bound')
+      if not flagged:
+        ctx.violation('shared-smooth-not-flagged/user-bound',
+                      'CheckPollardpm1(bound=2^%d), instance history %d: p-1 '
+                      'is a squarefree product of primes below the bound and '
+                      'shares >= 2^60 with q-1: not flagged' % (
+                          bound.bit_length() - 1, hist),
+                      {'n': n, 'p': p, 'bound': bound, 'history': hist})
+      elif not both and not {p, qq} <= facs:
+        ctx.violation('shared-smooth-not-factored/user-bound',
+                      'only p-1 is smooth but no factorisation was recorded',
+                      {'n': n, 'p': p, 'bound': bound})
+      else:
+        ctx.count('hit:smooth/user-bound')
   try:
     ctx.sample({'family': 'p-1, q-1 share a smooth factor', 'both_smooth': both,
-                'n': n})
+                'instance_history': hist, 'n': n})
   except NameError:
     pass
 
@@ -298,7 +404,10 @@ def finalize(agg, tier):
                  'set bits clustered below the msb were not flagged' % (
                      c['miss:' + fam], c['tried:' + fam]),
                  'data': {'miss': c['miss:' + fam], 'n': c['tried:' + fam]}})
-  for k in ('hit:smooth/one', 'hit:smooth/both'):
+  for k in ('hit:smooth/one', 'hit:smooth/both', 'hit:smooth/one/maxpow',
+            'hit:smooth/both/maxpow', 'hit:smooth/user-bound',
+            'pollard_product_observed', 'instance_history:1',
+            'instance_history:2', 'instance_history:3'):
     if not c.get(k):
       inc.append('reach counter %s is zero' % k)
   return viol, inc
